@@ -17,7 +17,7 @@ RULE = ("one evaluation = one configuration round trip (field subset x generated
 ASSUMPTIONS = ["process death only (os._exit): power loss / fsync ordering is not observable here",
                "the untyped key=value format is compared as strings; values there contain no comment characters, '=' only inside, and no surrounding blanks",
                "text values are valid unicode without control characters (key=value) / arbitrary unicode (JSON)"]
-REQUIRED = ["rewrites_in_other_format", "rewrite_other_format_ok", "loads_through_stack_setProfile", "second_saves", "second_save_ok", "read_before_save", "roundtrips", "route:save-profile", "route:save-dest", "route:str-file", "never_used_profiles", "binary_fields",
+REQUIRED = ["loads_after_rejected_config", "rewrites_in_other_format", "rewrite_other_format_ok", "loads_through_stack_setProfile", "second_saves", "second_save_ok", "read_before_save", "roundtrips", "route:save-profile", "route:save-dest", "route:str-file", "never_used_profiles", "binary_fields",
             "crash_children", "crash_died_inside", "crash_outcome:old", "crash_outcome:new"]
 TIMEOUT = {"quick": 900, "thorough": 7200}
 
@@ -135,6 +135,26 @@ def roundtrip(acc, r, subset, fmt, route, loadpath, used_before, tag):
     profile = "prof_%s" % vals["phone"]
     base = fresh_xdg("rt")
     w = {"op": "roundtrip", "tag": tag, "subset": subset, "fmt": fmt, "route": route, "loadpath": loadpath, "used_before": used_before}
+    rj = r.random()
+    if rj < 0.3:
+        # earlier in the same process the application tried to load a file that is no valid configuration (a key this version does
+        # not know, a wrong type, a cut-off or empty file). Whether that load raises or returns nothing is not judged; judged is the
+        # valid configuration saved and loaded AFTER it, which must come back as for any other case.
+        k = int(rj * 1000) % 6
+        bad = ['{"phone": "4915200000001", "cc": "49", "some_future_option": 1}', "phone=4915200000001\nsome_future_option=1\n",
+               '{"phone": "4915200000001", "cc": ', "", '["phone"]', '{"phone": {"x": 1}, "unknown": null}'][k]
+        bd = os.path.join(base, "rejected")
+        os.makedirs(bd, exist_ok=True)
+        bp = os.path.join(bd, "other.%s" % ("yo" if k == 1 else "json"))
+        with open(bp, "w") as f_:
+            f_.write(bad)
+        try:
+            got_bad = ConfigManager().load(bp)
+            acc.count("bad_config_load_returned:%s" % type(got_bad).__name__)
+        except Exception as e:  # noqa
+            acc.count("bad_config_load_raised:%s" % type(e).__name__)
+        acc.count("loads_after_rejected_config")
+        w["after_rejected_config_kind"] = k
     acc.count("roundtrips")
     acc.count("route:" + route)
     acc.count("fmt:" + fmt)
